@@ -22,6 +22,7 @@ func init() {
 			ma.ruleR6(c)
 			ma.ruleR7(c)
 			ma.ruleR8(c)
+			ma.ruleR8u(c)
 			ruleL1(c)
 			ruleL2(c)
 		},
